@@ -3,6 +3,7 @@
 # Wpull. Copyright 2013-2015: Christopher Foo and others. License: GPL v3.
 import abc
 import email.utils
+import errno
 import gettext
 import http.client
 import itertools
@@ -103,6 +104,12 @@ class BaseFileWriterSession(BaseWriterSession):
         self._filename = None
         self._file_continue_requested = False
 
+    UNUSABLE_NAME_ERRNOS = frozenset([
+        errno.ENAMETOOLONG, errno.EISDIR, errno.ENOTDIR, errno.EEXIST,
+        errno.ELOOP, errno.EINVAL, errno.EILSEQ,
+    ])
+    '''Errors of open() and makedirs() that the file name is to blame for.'''
+
     @classmethod
     def open_file(cls, filename: str, response: BaseResponse, mode='wb+'):
         '''Open a file object on to the Response Body.
@@ -117,11 +124,25 @@ class BaseFileWriterSession(BaseWriterSession):
         _logger.debug('Saving file to {0}, mode={1}.',
                       filename, mode)
 
-        dir_path = os.path.dirname(filename)
-        if dir_path and not os.path.exists(dir_path):
-            os.makedirs(dir_path)
+        try:
+            dir_path = os.path.dirname(filename)
+            if dir_path and not os.path.exists(dir_path):
+                os.makedirs(dir_path)
 
-        response.body = Body(open(filename, mode))
+            response.body = Body(open(filename, mode))
+        except (OSError, ValueError, RecursionError) as error:
+            if isinstance(error, OSError) and \
+                    error.errno not in cls.UNUSABLE_NAME_ERRNOS:
+                # The disk is full, read-only, broken...: not this URL's
+                # fault.
+                raise
+
+            # The name, which comes from the URL or from the server, cannot
+            # be used (too long, too deep, a directory, a NUL in it): that
+            # is an error of this URL only.
+            raise ProtocolError(
+                _('Cannot save to {filename}: {error}.')
+                .format(filename=ascii(filename), error=error)) from error
 
     @classmethod
     def set_timestamp(cls, filename: str, response: HTTPResponse):
